@@ -48,6 +48,15 @@ async fn is_block_dev(file: &File) -> Result<bool, std::io::Error> {
     #[cfg(target_os = "macos")]
     use std::os::macos::fs::MetadataExt;
     let meta = file.metadata().await?;
+    #[cfg(feature = "verif-hooks")]
+    if let Some(path) = std::env::var_os("BITA_VERIF_BLOCKDEV") {
+        // Verification hook: treat the named regular file as if it was a block device.
+        if let Ok(m) = std::fs::metadata(path) {
+            if m.st_dev() == meta.st_dev() && m.st_ino() == meta.st_ino() {
+                return Ok(true);
+            }
+        }
+    }
     if meta.st_mode() & 0x6000 == 0x6000 {
         Ok(true)
     } else {
